@@ -528,15 +528,7 @@ func TestVerifC39(t *testing.T) {
 		return true
 	})
 
-	// ---- Part B: the name alphabet through the real renderers
-	for _, ns := range namespaces {
-		for _, n := range names {
-			sig, nt := c39CheckBucket(rep, scheme, ns, n, true)
-			rep.Eval(1)
-			rep.Count("bucket_cases_rendered", 1)
-			rep.Outcome(sig, nt)
-		}
-	}
+	// ---- Part B (simplest first, so the first counterexample is the shortest)
 	// all-'a' names of every length 1..64 (+100, 253) x namespace lengths, simplest first, and
 	// every DNS-shaped string over {a,0,-,.,A} up to length 3 (direct calls; rendering adds nothing)
 	nsLens := []int{1, 2, 7, 34, 48, 63}
@@ -578,6 +570,15 @@ func TestVerifC39(t *testing.T) {
 			sig, nt := c39CheckBucket(rep, scheme, ns, n, false)
 			rep.Eval(1)
 			rep.Count("bucket_cases_direct", 1)
+			rep.Outcome(sig, nt)
+		}
+	}
+	// the Part A name alphabet through the real managed-etcd renderers
+	for _, ns := range namespaces {
+		for _, n := range names {
+			sig, nt := c39CheckBucket(rep, scheme, ns, n, true)
+			rep.Eval(1)
+			rep.Count("bucket_cases_rendered", 1)
 			rep.Outcome(sig, nt)
 		}
 	}
